@@ -8,6 +8,8 @@ def n_of(ctx, quick, thorough):
 
 
 def plan_C01(ctx):
+    e1_build_algo(ctx)
+    e2_build_algo(ctx)
     e1_int_coder(ctx)
     e1_chunking(ctx)
     run_family(ctx, "build_obs", n_of(ctx, 300, 6000), perfile=n_of(ctx, 20, 40))
@@ -67,6 +69,21 @@ def devs(ctx, module, names, inv, workers=4):
     """sensitivity runs: each named deviation of a Level-I model must violate (quick: the first one only)"""
     for d in (names[:1] if ctx.quick else names):
         tlc_mc(ctx, module, "MC_%s_dev_%s.cfg" % (module, d), workers=workers, expect_violation=inv)
+
+
+def e1_build_algo(ctx):
+    tlc_mc(ctx, "BuildAlgo", "MC_BuildAlgo.cfg", workers=4)
+    devs(ctx, "BuildAlgo", ["LaterInstanceFieldName", "FreqFromLocs", "FreqAssign", "NoFieldSort"], "AllRefine")
+
+
+def e2_build_algo(ctx):
+    import lift
+    behs = lift.dedupe(tlc_emit(ctx, "BuildAlgo", "Gen_BuildAlgo.cfg", os.path.join(ctx.work, "beh-build.json")))
+    by_norm = {}
+    for i, bh in enumerate(behs):
+        by_norm.setdefault(i % 2, []).append(lift.lift_build(bh, i))
+    for k, scs in by_norm.items():        # one trace file shares one norm function
+        run_scenarios(ctx, scs, "e2build%d" % k, perfile=4)
 
 
 def e1_chunking(ctx):
